@@ -435,6 +435,70 @@ pub fn run(tier: Tier) -> i32 {
         exhaustive: true,
         extra: vec![],
     });
+    // large positions (text path): the error and the trace lines name the position as written
+    {
+        let mut n = 0u64;
+        for pos in [65_543usize, 2_147_483_647, 4_294_967_303] {
+            for (gt, is_err) in [("0", true), ("0/1/1", true), ("./.", false), ("1/2", false)] {
+                n += 1;
+                let mut cs = call_set(gt, CTXS[0]);
+                cs.records[1].pos = pos;
+                cs.records[2].pos = pos + 2;
+                let vcf = crate::gen::to_vcf(&cs).0;
+                let o = run_sfs(&["create", "-vv", "-s", "s0,s1"], Stdin::Bytes(&vcf), &scratch);
+                let stderr = o.stderr_str();
+                let site = format!("'chr2:{pos}'");
+                let ok = if is_err { !o.ok() && o.stdout.is_empty() && o.diagnosed_error() && stderr.contains(&site) } else { o.ok() && stderr.contains(&format!("Skipping sample 's0' at site {site}")) };
+                if !ok {
+                    rep.violation(
+                        format!("C08|cli|large-position-misreported|{}", if is_err { "ploidy-error" } else { "trace" }),
+                        format!("GT '{gt}' at chr2:{pos}: {} stdout {:?} stderr {:?}", o.status_str(), o.stdout_str(), stderr.lines().filter(|l| l.contains("chr2")).take(3).collect::<Vec<_>>()),
+                        J::obj([("kind", J::s("c08-pos")), ("gt", J::s(gt)), ("pos", J::u(pos))]),
+                    );
+                }
+            }
+        }
+        rep.part(Part {
+            name: "cli: large positions".into(),
+            evaluations: n,
+            nontrivial: n,
+            note: "probe record at positions 65 543, 2^31-1 and 2^32+7 (VCF text): ploidy errors and trace lines name contig:position as written".into(),
+            exhaustive: true,
+            extra: vec![],
+        });
+    }
+    // scale: more than 65 536 selected samples; the trace line must name the sample that was skipped
+    {
+        let n = 65_540usize;
+        let who = 65_537usize;
+        let mut cs = CallSet::new(n);
+        let gts0: Vec<&str> = (0..n).map(|j| ["0/0", "0/1"][j % 2]).collect();
+        cs.push_gts(&gts0);
+        let gts1: Vec<&str> = (0..n).map(|j| if j == who { "./." } else if j == 3 { "1/1" } else { "0/0" }).collect();
+        cs.push_gts(&gts1);
+        let vcf = crate::gen::to_vcf(&cs).0;
+        let o = run_sfs(&["create", "-vv"], Stdin::Bytes(&vcf), &scratch);
+        let stderr = o.stderr_str();
+        let named: Vec<&str> = stderr.lines().filter(|l| l.contains("Skipping sample")).collect();
+        let want = format!("Skipping sample 's{who}' at site 'chr1:2'. Reason: 'missing'");
+        let alt0: usize = (0..n).filter(|j| j % 2 == 1).count();
+        let ok_out = crate::subject::parse_out(&o).map(|g| g.shape == vec![2 * n + 1] && g.data.iter().enumerate().all(|(i, v)| *v == if i == alt0 { 1.0 } else { 0.0 })).unwrap_or(false);
+        if !(o.ok() && named.len() == 1 && named[0].contains(&want) && ok_out) {
+            rep.violation(
+                "C08|cli|wide-call-set-misreported",
+                format!("{n} samples, only sample s{who} missing at chr1:2: {}; trace lines {:?}; spectrum as expected: {ok_out}", o.status_str(), named.iter().take(3).collect::<Vec<_>>()),
+                J::obj([("kind", J::s("c08-wide")), ("samples", J::u(n)), ("missing_sample", J::u(who))]),
+            );
+        }
+        rep.part(Part {
+            name: "cli: 65 540 selected samples".into(),
+            evaluations: 1,
+            nontrivial: 1,
+            note: "two records, one missing genotype in column 65 537: the site is skipped, the trace line names s65537, the other record is counted at its index".into(),
+            exhaustive: true,
+            extra: vec![],
+        });
+    }
     rep.assumptions = vec![
         "a bare '.' GT (the VCF missing-field spelling / a haploid missing call) may be classified either as missing or as a ploidy error: the statement does not decide it (DESIGN section 5, F16)".into(),
         "BCF encoding written from the BCF2.2 specification (harness/src/gen.rs), validated against the htslib-written fixture record".into(),
